@@ -7,6 +7,8 @@ imports `Props/C07` and `Props/C04`, hence this separate module).
 -/
 import Cacache.Lemmas.Linearize
 import Cacache.Lemmas.LinearizeLs
+import Cacache.Lemmas.LinearizeRead
+import Cacache.Lemmas.TwoWriters
 
 namespace Cacache.C07x
 open Prog Refine Linearize ListRefine LinearizeLs
@@ -204,5 +206,204 @@ theorem ls_two_writers_serializable (w1 w2 : IOp) (h1 : OpWF cfg w1) (h2 : OpWF 
          r.Perm (run env (ls cfg cache) (runOp cfg cache env w2 (runOp cfg cache env w1 fs).2).2).1 ∨
          r.Perm (run env (ls cfg cache) (runOp cfg cache env w1 (runOp cfg cache env w2 fs).2).2).1) :=
   LinearizeLs.ls_two_writers_serializable cfg env cache w1 w2 h1 h2 fs hX hwarm sched
+
+/-! ### the two-step `read` next to mutators (Lemmas/LinearizeRead)
+
+`read` = one lookup in the index, then one verified read of the content file the entry names: two
+linearization points.  `PlainFor` / `NoLinkedContent`: the content paths involved are no symlinks
+(`link_to` entries are outside these statements).  `hother` of the writer theorem: the new data's
+address is not the address of the reader's current entry, or already holds exactly these bytes. -/
+
+open LinearizeRead in
+/-- **A keyed read next to an index insertion** (any keys): the reader answers as alone before or
+alone after; the insertion's answer and the final filesystem are those of its solo run. -/
+theorem read_insert_linearizable {γ : Type} (f : Res Integrity → γ) (g : Res Bytes → γ)
+    (key key' : Bytes) (o : WriteOpts) (b : Bytes) (fs : FS)
+    (hb : BucketIs fs (bucketPath cfg cache key') b)
+    (hpl : PlainFor cache fs (.ok ((codec cfg).findIn key' ((codec cfg).entries b))))
+    (sched : List Nat) :
+    (∀ c, FinishedWith env [(insert cfg cache key o).mapRes f, (read cfg cache key').mapRes g] fs sched 1 c →
+      c = g (run env (read cfg cache key') fs).1 ∨
+      c = g (run env (read cfg cache key') (run env (insert cfg cache key o) fs).2.1).1) ∧
+    (∀ c, FinishedWith env [(insert cfg cache key o).mapRes f, (read cfg cache key').mapRes g] fs sched 0 c →
+      c = f (run env (insert cfg cache key o) fs).1 ∧
+      (interleave env [(insert cfg cache key o).mapRes f, (read cfg cache key').mapRes g] fs sched).2 =
+        (run env (insert cfg cache key o) fs).2.1) :=
+  LinearizeRead.read_insert_linearizable cfg env cache f g key key' o b fs hb hpl sched
+
+open LinearizeRead in
+/-- **A keyed read next to `remove_hash`** of any address - the one the key's entry names included: the
+schedule "lookup, removal, content read" answers what "removal, then read" answers. -/
+theorem read_removeHash_linearizable {γ : Type} (f : Res Unit → γ) (g : Res Bytes → γ)
+    (key' : Bytes) (sri : Integrity) (b : Bytes) (fs : FS)
+    (hb : BucketIs fs (bucketPath cfg cache key') b) (sched : List Nat) :
+    (∀ c, FinishedWith env [(removeHash cache sri).mapRes f, (read cfg cache key').mapRes g] fs sched 1 c →
+      c = g (run env (read cfg cache key') fs).1 ∨
+      c = g (run env (read cfg cache key') (run env (removeHash cache sri) fs).2.1).1) ∧
+    (∀ c, FinishedWith env [(removeHash cache sri).mapRes f, (read cfg cache key').mapRes g] fs sched 0 c →
+      c = f (run env (removeHash cache sri) fs).1 ∧
+      (interleave env [(removeHash cache sri).mapRes f, (read cfg cache key').mapRes g] fs sched).2 =
+        (run env (removeHash cache sri) fs).2.1) :=
+  LinearizeRead.read_removeHash_linearizable cfg env cache f g key' sri b fs hb sched
+
+open LinearizeRead in
+/-- **A keyed read next to a WHOLE keyed write** (content phase, rename, index append; any keys, the
+reader's own included): as alone before or alone after the whole write. -/
+theorem read_write_linearizable {γ : Type} (f : Res Integrity → γ) (g : Res Bytes → γ)
+    (fl : Flavour) (algo : Algo) (key key' data : Bytes) (b : Bytes) (fs : FS)
+    (hv : ContentValid cfg cache fs)
+    (hb : BucketIs fs (bucketPath cfg cache key') b)
+    (hpl : PlainFor cache fs (.ok ((codec cfg).findIn key' ((codec cfg).entries b))))
+    (hother : ∀ m cp, (codec cfg).findIn key' ((codec cfg).entries b) = some m →
+      contentPath cache m.sri = some cp →
+      contentPath cache (Sri.compute cfg.H algo data) ≠ some cp ∨ fs.get cp = some (.file data))
+    (sched : List Nat) :
+    (∀ c, FinishedWith env [(write cfg fl cache algo key data).mapRes f,
+        (read cfg cache key').mapRes g] fs sched 1 c →
+      c = g (run env (read cfg cache key') fs).1 ∨
+      c = g (run env (read cfg cache key') (run env (write cfg fl cache algo key data) fs).2.1).1) ∧
+    (∀ c, FinishedWith env [(write cfg fl cache algo key data).mapRes f,
+        (read cfg cache key').mapRes g] fs sched 0 c →
+      c = f (run env (write cfg fl cache algo key data) fs).1 ∧
+      (interleave env [(write cfg fl cache algo key data).mapRes f,
+        (read cfg cache key').mapRes g] fs sched).2 =
+        (run env (write cfg fl cache algo key data) fs).2.1) :=
+  LinearizeRead.read_write_linearizable' cfg env cache f g fl algo key key' data b fs hv hb hpl hother sched
+
+open LinearizeRead in
+/-- **A read by address next to `remove_hash` / next to a whole by-address writer.** -/
+theorem readHash_removeHash_linearizable {γ : Type} (f : Res Unit → γ) (g : Res Bytes → γ)
+    (sri sri' : Integrity) (fs : FS) (sched : List Nat) :
+    (∀ c, FinishedWith env [(removeHash cache sri').mapRes f, (readHash cfg cache sri).mapRes g] fs sched 1 c →
+      c = g (run env (readHash cfg cache sri) fs).1 ∨
+      c = g (run env (readHash cfg cache sri) (run env (removeHash cache sri') fs).2.1).1) ∧
+    (∀ c, FinishedWith env [(removeHash cache sri').mapRes f, (readHash cfg cache sri).mapRes g] fs sched 0 c →
+      c = f (run env (removeHash cache sri') fs).1 ∧
+      (interleave env [(removeHash cache sri').mapRes f, (readHash cfg cache sri).mapRes g] fs sched).2 =
+        (run env (removeHash cache sri') fs).2.1) :=
+  LinearizeRead.readHash_removeHash_linearizable cfg env cache f g sri sri' fs sched
+
+open LinearizeRead in
+theorem readHash_writeHash_linearizable {γ : Type} (f : Res Integrity → γ) (g : Res Bytes → γ)
+    (fl : Flavour) (algo : Algo) (data : Bytes) (sri : Integrity) (fs : FS)
+    (hpl : PlainAt cache fs sri) (sched : List Nat) :
+    (∀ c, FinishedWith env [(writeHash cfg fl cache algo data).mapRes f,
+        (readHash cfg cache sri).mapRes g] fs sched 1 c →
+      c = g (run env (readHash cfg cache sri) fs).1 ∨
+      c = g (run env (readHash cfg cache sri) (run env (writeHash cfg fl cache algo data) fs).2.1).1) ∧
+    (∀ c, FinishedWith env [(writeHash cfg fl cache algo data).mapRes f,
+        (readHash cfg cache sri).mapRes g] fs sched 0 c →
+      c = f (run env (writeHash cfg fl cache algo data) fs).1 ∧
+      (interleave env [(writeHash cfg fl cache algo data).mapRes f,
+        (readHash cfg cache sri).mapRes g] fs sched).2 =
+        (run env (writeHash cfg fl cache algo data) fs).2.1) :=
+  LinearizeRead.readHash_writeHash_linearizable cfg env cache f g fl algo data sri fs hpl sched
+
+open LinearizeRead in
+/-- **Three operations - reader, index insertion, `remove_hash`**: one of four serial orders of the
+real programs explains all three answers (the scenario "entry found, key re-pointed, old content
+removed, content read fails" is the order remove - read - insert). -/
+theorem read_insert_removeHash_serial {γ : Type} (gR : Res Bytes → γ) (gI : Res Integrity → γ)
+    (gU : Res Unit → γ) (key key' : Bytes) (o : WriteOpts) (sri : Integrity) (b : Bytes) (fs : FS)
+    (hb : BucketIs fs (bucketPath cfg cache key') b) (hnl : NoLinkedContent cache fs)
+    (sched : List Nat) (c0 c1 c2 : γ)
+    (h0 : FinishedWith env [(read cfg cache key').mapRes gR, (insert cfg cache key o).mapRes gI,
+        (removeHash cache sri).mapRes gU] fs sched 0 c0)
+    (h1 : FinishedWith env [(read cfg cache key').mapRes gR, (insert cfg cache key o).mapRes gI,
+        (removeHash cache sri).mapRes gU] fs sched 1 c1)
+    (h2 : FinishedWith env [(read cfg cache key').mapRes gR, (insert cfg cache key o).mapRes gI,
+        (removeHash cache sri).mapRes gU] fs sched 2 c2) :
+    ∃ order ∈ [[0, 1, 2], [1, 0, 2], [2, 0, 1], [1, 2, 0]],
+      serialRun env [(read cfg cache key').mapRes gR, (insert cfg cache key o).mapRes gI,
+        (removeHash cache sri).mapRes gU] order fs =
+      order.map (fun i => match i with | 0 => c0 | 1 => c1 | _ => c2) :=
+  LinearizeRead.read_insert_removeHash_serial cfg env cache gR gI gU key key' o sri b fs hb hnl sched c0 c1 c2 h0 h1 h2
+
+/-! ### two WHOLE mutating operations (Lemmas/TwoWriters)
+
+`Serializable`: after every schedule that finishes both, the cache is `Healthy`, no temp file is
+left (`TmpClean`), both ANSWERS are literally those of "p0 then p1" or of "p1 then p0" and the final
+ABSTRACT cache (index map, content store) is that serial run's (temp names differ between schedules, so
+filesystems are compared through `absCache`).  `hcoll`: two writers of ONE key do not write different
+bytes with one digest - without it the statement is false in the model
+(`writer_writer_collision_counterexample`; `H` is arbitrary there). -/
+
+open CacheRefine TwoWriters in
+theorem write_removeHash_serializable (hl : HexLen cfg) (fl : Flavour) (algo : Algo) (key data : Bytes)
+    (hk : Json.utf8Valid key = true) (hd : data.length ≤ Rec.u64Max)
+    (sri : Integrity) (fs : FS) (hH : Healthy cfg cache fs) (sched : List Nat)
+    (c0 c1 : Res Integrity ⊕ Res Unit)
+    (f0 : FinishedWith env [(write cfg fl cache algo key data).mapRes Sum.inl,
+      (removeHash cache sri).mapRes Sum.inr] fs sched 0 c0)
+    (f1 : FinishedWith env [(write cfg fl cache algo key data).mapRes Sum.inl,
+      (removeHash cache sri).mapRes Sum.inr] fs sched 1 c1) :
+    Serializable cfg env cache (write cfg fl cache algo key data) (removeHash cache sri) fs sched c0 c1 :=
+  TwoWriters.write_removeHash_serializable cfg env cache hl fl algo key data hk hd sri fs hH sched c0 c1 f0 f1
+
+open CacheRefine TwoWriters in
+theorem writeHash_removeHash_serializable (hl : HexLen cfg) (fl : Flavour) (algo : Algo) (data : Bytes)
+    (sri : Integrity) (fs : FS) (hH : Healthy cfg cache fs) (sched : List Nat)
+    (c0 c1 : Res Integrity ⊕ Res Unit)
+    (f0 : FinishedWith env [(writeHash cfg fl cache algo data).mapRes Sum.inl,
+      (removeHash cache sri).mapRes Sum.inr] fs sched 0 c0)
+    (f1 : FinishedWith env [(writeHash cfg fl cache algo data).mapRes Sum.inl,
+      (removeHash cache sri).mapRes Sum.inr] fs sched 1 c1) :
+    Serializable cfg env cache (writeHash cfg fl cache algo data) (removeHash cache sri) fs sched c0 c1 :=
+  TwoWriters.writeHash_removeHash_serializable cfg env cache hl fl algo data sri fs hH sched c0 c1 f0 f1
+
+open CacheRefine TwoWriters in
+/-- **Two whole keyed writers** - different keys and data, different keys with the SAME data (one
+address, the second rename replaces the file by an identical one), or the SAME key (the key ends up
+with the data of whoever appended its record last; both answer ok with their own integrity). -/
+theorem write_write_serializable (hl : HexLen cfg) (fl0 fl1 : Flavour) (a0 a1 : Algo)
+    (key0 key1 d0 d1 : Bytes)
+    (hk0 : Json.utf8Valid key0 = true) (hd0 : d0.length ≤ Rec.u64Max)
+    (hk1 : Json.utf8Valid key1 = true) (hd1 : d1.length ≤ Rec.u64Max)
+    (hcoll : key0 = key1 → a0 = a1 → Bytes.hex (cfg.H a0 d0) = Bytes.hex (cfg.H a1 d1) → d0 = d1)
+    (fs : FS) (hH : Healthy cfg cache fs) (sched : List Nat)
+    (c0 c1 : Res Integrity ⊕ Res Integrity)
+    (f0 : FinishedWith env [(write cfg fl0 cache a0 key0 d0).mapRes Sum.inl,
+      (write cfg fl1 cache a1 key1 d1).mapRes Sum.inr] fs sched 0 c0)
+    (f1 : FinishedWith env [(write cfg fl0 cache a0 key0 d0).mapRes Sum.inl,
+      (write cfg fl1 cache a1 key1 d1).mapRes Sum.inr] fs sched 1 c1) :
+    Serializable cfg env cache (write cfg fl0 cache a0 key0 d0) (write cfg fl1 cache a1 key1 d1)
+      fs sched c0 c1 :=
+  TwoWriters.write_write_serializable cfg env cache hl fl0 fl1 a0 a1 key0 key1 d0 d1 hk0 hd0 hk1 hd1 hcoll fs hH
+    sched c0 c1 f0 f1
+
+open CacheRefine TwoWriters in
+theorem write_delete_serializable (hl : HexLen cfg) (fl : Flavour) (algo : Algo) (key data : Bytes)
+    (hk : Json.utf8Valid key = true) (hd : data.length ≤ Rec.u64Max)
+    (key' : Bytes) (hk' : Json.utf8Valid key' = true)
+    (fs : FS) (hH : Healthy cfg cache fs) (sched : List Nat)
+    (c0 c1 : Res Integrity ⊕ Res Unit)
+    (f0 : FinishedWith env [(write cfg fl cache algo key data).mapRes Sum.inl,
+      (delete cfg cache key').mapRes Sum.inr] fs sched 0 c0)
+    (f1 : FinishedWith env [(write cfg fl cache algo key data).mapRes Sum.inl,
+      (delete cfg cache key').mapRes Sum.inr] fs sched 1 c1) :
+    Serializable cfg env cache (write cfg fl cache algo key data) (delete cfg cache key')
+      fs sched c0 c1 :=
+  TwoWriters.write_delete_serializable cfg env cache hl fl algo key data hk hd key' hk' fs hH sched c0 c1 f0 f1
+
+open CacheRefine TwoWriters in
+/-- **The quantifier's three operations: writer, writer, `remove_hash`** - one of the six serial
+orders gives all three answers and the final abstract cache. -/
+theorem write_write_removeHash_serializable {γ : Type} (hl : HexLen cfg) (i0 i1 : Res Integrity → γ)
+    (i2 : Res Unit → γ) (fl0 fl1 : Flavour) (a0 a1 : Algo) (key0 key1 d0 d1 : Bytes)
+    (hk0 : Json.utf8Valid key0 = true) (hd0 : d0.length ≤ Rec.u64Max)
+    (hk1 : Json.utf8Valid key1 = true) (hd1 : d1.length ≤ Rec.u64Max)
+    (hcoll : key0 = key1 → a0 = a1 → Bytes.hex (cfg.H a0 d0) = Bytes.hex (cfg.H a1 d1) → d0 = d1)
+    (sri : Integrity) (fs : FS) (hH : Healthy cfg cache fs) (sched : List Nat) (c0 c1 c2 : γ)
+    (f0 : FinishedWith env [(write cfg fl0 cache a0 key0 d0).mapRes i0,
+      (write cfg fl1 cache a1 key1 d1).mapRes i1, (removeHash cache sri).mapRes i2] fs sched 0 c0)
+    (f1 : FinishedWith env [(write cfg fl0 cache a0 key0 d0).mapRes i0,
+      (write cfg fl1 cache a1 key1 d1).mapRes i1, (removeHash cache sri).mapRes i2] fs sched 1 c1)
+    (f2 : FinishedWith env [(write cfg fl0 cache a0 key0 d0).mapRes i0,
+      (write cfg fl1 cache a1 key1 d1).mapRes i1, (removeHash cache sri).mapRes i2] fs sched 2 c2) :
+    Serializable3 cfg env cache ((write cfg fl0 cache a0 key0 d0).mapRes i0)
+      ((write cfg fl1 cache a1 key1 d1).mapRes i1) ((removeHash cache sri).mapRes i2)
+      fs sched c0 c1 c2 :=
+  TwoWriters.write_write_removeHash_serializable cfg env cache hl i0 i1 i2 fl0 fl1 a0 a1 key0 key1 d0 d1 hk0 hd0
+    hk1 hd1 hcoll sri fs hH sched c0 c1 c2 f0 f1 f2
 
 end Cacache.C07x
